@@ -91,6 +91,6 @@ impl Prop for C07 {
         ]
     }
     fn mandatory_probes(_t: Tier) -> Vec<&'static str> {
-        vec!["probe.opened_after_faults", "probe.no_fault_baseline"]
+        vec!["probe.opened_after_faults", "probe.no_fault_baseline", "probe.embedded_stream_opened"]
     }
 }
